@@ -93,7 +93,7 @@ func C03(r *h.Run) {
 				key = "segmentation/client-outcome-differs"
 			}
 			r.Fail(h.Failure{Key: key, Family: fam, What: "outcome under fragmentation differs from the outcome of the same bytes in one piece (" + what + ")",
-				Input: map[string]any{"cfg": cfg, "body_hex": h.Hex(body), "chunk_sizes": chunkSizes(chunks), "fin": fin.Coq()},
+				Input:    map[string]any{"cfg": cfg, "body_hex": h.Hex(body), "chunk_sizes": chunkSizes(chunks), "fin": fin.Coq()},
 				Expected: obsStrings(whole), Actual: obsStrings(got)})
 		}
 	}
